@@ -5,6 +5,7 @@ use crate::stylefmt::*;
 use crate::treegen::*;
 use taffy::prelude::*;
 use taffy::style::Overflow;
+use taffy::util::MaybeResolve;
 use taffy::{BoxSizing, LayoutInput, LayoutOutput, Point, RequestedAxis, RunMode, SizingMode};
 
 type Call = (Size<Option<f32>>, Size<AvailableSpace>);
@@ -194,6 +195,41 @@ fn run_leaf(out: &mut Out, style: &Style, ctx: Option<Ctx>, avail: Size<Availabl
             }
             if calls.len() > 1 || (style.display == Display::None && !calls.is_empty()) {
                 out.impl_violation(format!("sig:c19-measure-calls {} measure calls for display {:?}", calls.len(), style.display));
+            }
+            // the two remaining aspect-ratio corners, evaluated directly (narrow, hypothesis-free regions of the statement)
+            if let Some(r) = style.aspect_ratio {
+                let def = |d: Dimension, a: AvailableSpace| -> Option<f32> {
+                    if d.is_auto() {
+                        None
+                    } else {
+                        d.maybe_resolve(a.into_option(), |_, _| 0.0)
+                    }
+                };
+                let (sw, sh) = (def(style.size.width, avail.width), def(style.size.height, avail.height));
+                let (nw, nh) = (def(style.min_size.width, avail.width), def(style.min_size.height, avail.height));
+                let (xw, xh) = (def(style.max_size.width, avail.width), def(style.max_size.height, avail.height));
+                let cb = style.box_sizing == BoxSizing::ContentBox;
+                if style.display != Display::None && r > 0.0 {
+                    // "style size if definite … clamped by min/max": a declared size with no min and no max in its own axis
+                    // must come out as declared (or padding+border if that is larger)
+                    if let (Some(w), None, None, None) = (sw, nw, nh, xw) {
+                        let want = (w + if cb { pbw } else { 0.0 }).max(pbw);
+                        if l.size.width != want {
+                            out.impl_violation(format!("sig:c19-root-max-transfer declared width {want} with no min/max-width comes out as {} (display {:?}, max-height {:?}, ratio {r})", l.size.width, style.display, xh));
+                        }
+                    }
+                    if let (Some(h), None, None, None) = (sh, nw, nh, xh) {
+                        let want = (h + if cb { pbh } else { 0.0 }).max(pbh);
+                        if l.size.height != want {
+                            out.impl_violation(format!("sig:c19-root-max-transfer declared height {want} with no min/max-height comes out as {} (display {:?}, max-width {:?}, ratio {r})", l.size.height, style.display, xw));
+                        }
+                    }
+                    // "an aspect ratio transferring a known axis to the other": with auto sizes and no max-height the box is
+                    // never flatter than its ratio
+                    if sw.is_none() && sh.is_none() && xh.is_none() && l.size.height < l.size.width / r {
+                        out.impl_violation(format!("sig:c19-ratio-unfloored-width auto-sized {}x{} is flatter than its ratio {r} although no max-height limits it", l.size.width, l.size.height));
+                    }
+                }
             }
             out.count(&format!("leaf:display:{:?}", style.display));
             out.count(&format!("leaf:calls:{}", calls.len()));
@@ -394,32 +430,42 @@ fn fixed_leaf_cases() -> Vec<(&'static str, Style, Option<Ctx>, Size<AvailableSp
     v.push(("min>max", s.clone(), Some(Ctx::Fixed(30.0, 10.0)), mc));
     s.display = Display::Block;
     v.push(("min>max block", s, Some(Ctx::Fixed(30.0, 10.0)), mc));
-    // corner A: both sizes set + aspect ratio: the height becomes max(h, w / ratio)
+    // repaired (0f21303): both sizes set + aspect ratio: was 100x100, must be 100x10
     let mut s = base_style();
     s.size = Size { width: length(100.0), height: length(10.0) };
     s.aspect_ratio = Some(1.0);
-    v.push(("corner:ar-both-sizes", s, None, mc));
-    // corner B: width + aspect ratio + max-height below width/ratio: max-height is not honoured
+    v.push(("repaired:ar-both-sizes", s, None, mc));
+    // repaired: width + aspect ratio + max-height below width/ratio: was 100x100, must be 100x20 (flex root);
+    // on a block root the root transfers max-height to max-width: 20x20 (remaining corner c19-root-max-transfer)
     let mut s = base_style();
     s.size = Size { width: length(100.0), height: auto() };
     s.max_size = Size { width: auto(), height: length(20.0) };
     s.aspect_ratio = Some(1.0);
-    v.push(("corner:ar-max-height flex", s.clone(), None, mc));
+    v.push(("repaired:ar-max-height flex", s.clone(), None, mc));
     s.display = Display::Block;
-    v.push(("corner:ar-max-height block", s, None, mc));
-    // corner C: content-box + aspect ratio + horizontal padding: the ratio is re-applied to the border box
+    v.push(("corner:c19-root-max-transfer", s, None, mc));
+    // repaired: content-box + aspect ratio + horizontal padding: was 150x150, must be 150x100
     let mut s = base_style();
     s.box_sizing = BoxSizing::ContentBox;
     s.size = Size { width: length(100.0), height: auto() };
     s.padding = Rect { left: length(50.0), right: zero(), top: zero(), bottom: zero() };
     s.aspect_ratio = Some(1.0);
-    v.push(("corner:ar-content-box", s, None, mc));
+    v.push(("repaired:ar-content-box", s, None, mc));
     // corner D: auto sizes, max-width below padding, aspect ratio: the ratio divides the unfloored width
     let mut s = base_style();
     s.max_size = Size { width: length(10.0), height: auto() };
     s.padding = Rect { left: length(30.0), right: zero(), top: zero(), bottom: zero() };
     s.aspect_ratio = Some(1.0);
-    v.push(("corner:ar-floored-width", s, None, mc));
+    v.push(("corner:c19-ratio-unfloored-width", s, None, mc));
+    // repaired: auto sizes + ratio + max-height: the ratio-derived height is clamped (30x20, was 30x30)
+    let mut s = base_style();
+    s.max_size = Size { width: auto(), height: length(20.0) };
+    s.aspect_ratio = Some(1.0);
+    v.push(("repaired:ar-auto-max-height", s, Some(Ctx::Fixed(30.0, 10.0)), mc));
+    // negative vertical padding (invalid CSS): the undetermined height is floored at 0
+    let mut s = base_style();
+    s.padding = Rect { left: zero(), right: zero(), top: length(-10.0), bottom: zero() };
+    v.push(("corner:negative-padding", s, None, mc));
     // display:none root: zero size but resolved padding/border/margin fields
     let mut s = base_style();
     s.display = Display::None;
@@ -435,6 +481,36 @@ pub fn run(cfg: &Cfg, out: &mut Out) -> String {
         if cfg.wants(idx) {
             out.begin_case(idx, &format!("fixed:{label}"));
             run_leaf(out, &style, ctx, avail);
+            // witnesses of the repaired l.149 defect: pinned sizes, and ComputeSize must agree with PerformLayout
+            let expected = match label {
+                "repaired:ar-both-sizes" => Some((100.0, 10.0)),
+                "repaired:ar-max-height flex" => Some((100.0, 20.0)),
+                "repaired:ar-content-box" => Some((150.0, 100.0)),
+                "repaired:ar-auto-max-height" => Some((30.0, 20.0)),
+                _ => None,
+            };
+            if let Some((ew, eh)) = expected {
+                let size_in = |mode: RunMode| {
+                    let input = LayoutInput {
+                        run_mode: mode,
+                        sizing_mode: SizingMode::InherentSize,
+                        axis: RequestedAxis::Both,
+                        known_dimensions: Size::NONE,
+                        parent_size: avail.into_options(),
+                        available_space: avail,
+                        vertical_margins_are_collapsible: Line::FALSE,
+                    };
+                    let mut c = ctx;
+                    taffy::compute_leaf_layout(input, &style, |_, _| 0.0, |k, a| measure(k, a, c.as_mut())).size
+                };
+                let (s_cs, s_pl) = (size_in(RunMode::ComputeSize), size_in(RunMode::PerformLayout));
+                if s_pl.width != ew || s_pl.height != eh {
+                    out.impl_violation(format!("sig:c19-ratio-floor-regressed {label}: expected {ew}x{eh}, got {}x{}", s_pl.width, s_pl.height));
+                }
+                if s_cs != s_pl {
+                    out.impl_violation(format!("sig:c19-runmode-disagree {label}: ComputeSize {}x{} vs PerformLayout {}x{}", s_cs.width, s_cs.height, s_pl.width, s_pl.height));
+                }
+            }
             // the same style through compute_leaf_layout in both run modes
             for mode in [RunMode::ComputeSize, RunMode::PerformLayout, RunMode::PerformHiddenLayout] {
                 let input = LayoutInput {
